@@ -102,3 +102,8 @@ Definition internal_file (f : string) : bool := String.prefix "internal/" f.
 
 Definition caller_data_not_written : bool :=
   forallb (fun s => negb (String.eqb (kind_of s) "paramwrite") || internal_file (file_of s)) sites.
+
+(* copying a package-level value (layoutOpts := defaultOptions) copies slices, maps, pointers and interfaces
+   shallowly: the template must hold none that is not nil, or concurrent calls would share it *)
+Definition templates_hold_no_references : bool :=
+  match ref_inits with [] => true | _ => false end.
